@@ -24,6 +24,11 @@ EXPLANATION = (
     "rl_blox/logging is followed to its uses: handed to the logger interface / print / a progress bar it is one of the wall-clock fields the "
     "property sets aside, deciding a branch that holds more than logging or seeding a generator it is a violation, anything else (stored, "
     "returned, handed to other code) is undecided. A violation is only reported on such positive evidence; unreadable forms are undecided. "
+    "(R6) a run is a function of its arguments only if nothing it reads was left behind by an earlier call: for every object that outlives a call "
+    "(module-level container, module global rebound through `global`, container in a class body, mutable default) and is written by code in the closure, the observers "
+    "are followed - log output only is fine; a keyed store / lookup pair or a lazily initialised global is a memo whose entry a later call receives although it was built "
+    "from the earlier call's inputs, so every input the kept value is built from must be pinned down by the lookup key (an input the key does not hold is a dataflow "
+    "witness of history dependence; a kept random generator continues its stream); other observed mutations are undecided. "
     "PRNG-key reuse is deliberately not a rule: it correlates draws but is deterministic."
 )
 TRUSTED = ["CPython: hash(int) is not salted, so set-of-int iteration order is a function of the insertion history", "jax.random / numpy Generator are deterministic functions of their key / seed"]
@@ -32,6 +37,7 @@ RULES = {
     "R2-seed-provenance": "default_rng / jax.random.key / PRNGKey / nnx.Rngs / seedable generators / env.reset(seed=) / action_space.seed are always given an argument (not None) in which no call reads an entropy source or the clock; the seeded / sampled action space is the one of the environment the routine was given or steps; a seed parameter defaulting to None is passed at every construction site",
     "R3-unordered-iteration": "sets whose iteration order is observed hold integers by construction (rng.choice(n), range, validated task ids, set algebra of those)",
     "R4-time-confinement": "outside rl_blox/logging/ a wall-clock value only reaches the logger interface, print or a progress bar: it neither decides a branch that holds more than logging nor seeds a generator",
+    "R6-process-state": "nothing that outlives a call (module-level container, rebound module global, class-level container, mutable default) hands a later call a value built from an earlier call's inputs: every input of a memoised value is part of its lookup key, and no random generator is kept across calls",
     "R5-uninitialised-storage": "no method reads a slot of a numpy.empty storage ahead of writing it (same index, no fill-state guard): on the first pass through the ring that slot was never written",
 }
 
@@ -50,7 +56,7 @@ CLOCK_FREE = {"time.sleep", "time.strptime", "time.mktime", "time.struct_time", 
 SEED_BUILTINS = {"int", "float", "abs", "min", "max", "round", "len", "sum", "pow", "divmod", "bool", "tuple", "list", "range"}
 SEED_LIBS = ("numpy.", "jax.", "flax.", "math.", "operator.", "functools.", "itertools.", "optax.", "chex.")
 SEED_METHODS = {"integers", "spawn", "generate_state", "item", "astype", "tolist", "squeeze", "sum", "bit_length", "__index__", "__int__"}   # of a generator / array / int that is itself judged where it is made
-VALUE_TRANSPARENT = {"int", "float", "str", "repr", "round", "abs", "format", "min", "max", "divmod", "bool"}
+VALUE_TRANSPARENT = {"int", "float", "str", "repr", "round", "abs", "format", "min", "max", "divmod", "bool", "len", "sum", "sorted", "list", "tuple"}
 PROGRESS_METHODS = {"set_description", "set_description_str", "set_postfix", "set_postfix_str", "write", "debug", "info", "warning", "error", "exception", "critical"}   # tqdm, logging.Logger
 
 
@@ -252,6 +258,7 @@ def run(ck, repo: Repo, tier: str):
     ck.floor("action-space-seed-and-sample-sites", n_spaces, 15)
     ck.ob("R1-forbidden-sources", "rl_blox", "closure-scanned", True, f"{n_calls} call expressions in {len(closure)} functions scanned, no forbidden source", "", "rl_blox/")
     ck.guard(_uninitialised_reads, ck, repo, funcs)
+    ck.guard(_process_state_guarded, ck, repo, funcs, closure, sinks)
     # positive control: the rule must fire on a known-bad snippet (rules whose expected count is zero)
     bad_src = "import numpy as np\nimport random, time\n\ndef train_x(seed):\n    a = np.random.rand()\n    b = random.random()\n    r = np.random.default_rng()\n    t = time.time()\n    for k in {'a', 'b'}:\n        pass\n"
     hits = _selfcheck(bad_src)
@@ -616,6 +623,11 @@ def _uninitialised_reads(ck, repo, funcs):
                     b = dotted(n.targets[0].value)
                     if b and b.startswith("self."):
                         stor.add(b)
+                    elif b and "." not in b:
+                        # the storage is filled in a local container that then becomes the attribute (`st = {}; st[k] = np.empty(..); self.buffer = st`)
+                        for m in ast.walk(fn):
+                            if isinstance(m, ast.Assign) and isinstance(m.value, ast.Name) and m.value.id == b:
+                                stor |= {dotted(t) for t in m.targets if dotted(t).startswith("self.")}
         if not stor:
             continue
         n_alloc += len(stor)
@@ -1085,7 +1097,828 @@ def _selfcheck(src):
     return hits
 
 
+# ---------------------------------------------------------------------------------------------------------------------------------
+# R6: state that outlives a call (module-level containers, rebound module globals, class-level containers, mutable defaults)
+
+MUTABLE_CTORS = {"dict", "list", "set", "bytearray", "collections.defaultdict", "collections.OrderedDict", "collections.deque", "collections.Counter", "collections.ChainMap",
+                 "weakref.WeakValueDictionary", "weakref.WeakKeyDictionary", "weakref.WeakSet"}
+MUTATING_METHODS = {"append", "extend", "insert", "pop", "popitem", "remove", "clear", "add", "discard", "update", "sort", "reverse", "appendleft", "extendleft", "popleft", "rotate",
+                    "__delitem__", "difference_update", "intersection_update", "symmetric_difference_update", "move_to_end", "subtract"}
+# wrappers under which a key component still determines the wrapped value (what is compared on a cache hit is the whole value)
+KEY_LOSSLESS_FUNCS = {"tuple", "list", "float", "int", "str", "repr", "bytes", "frozenset", "sorted", "hash", "complex", "bool", "map", "zip", "format"}
+KEY_LOSSY_FUNCS = {"len", "type", "isinstance", "callable", "min", "max", "sum", "any", "all"}
+KEY_LOSSLESS_METHODS = {"tobytes", "tolist", "tostring", "item", "ravel", "flatten", "astype", "copy", "items", "hex", "encode", "__hash__", "__repr__", "__str__", "view", "reshape", "squeeze", "numpy", "block_until_ready"}
+KEY_LOSSLESS_LIB = {"asarray", "array", "ascontiguousarray", "asanyarray", "ravel", "concatenate", "stack", "hstack", "vstack", "float32", "float64", "int32", "int64", "atleast_1d", "atleast_2d", "device_get"}
+# dropping or reordering entries can only turn a later hit into a miss (the value is then rebuilt from that call's own inputs)
+REMOVING_METHODS = {"pop", "popitem", "remove", "clear", "discard", "move_to_end", "popleft", "__delitem__"}
+GEOMETRY_ATTRS = {"shape", "dtype", "ndim", "size", "itemsize", "nbytes"}
+STATEFUL_GENERATORS = {"numpy.random.default_rng", "numpy.random.Generator", "flax.nnx.Rngs"} | SEEDED_GENERATORS
+PURE_VALUE_LIBS = ("jax.", "flax.nnx.jit", "flax.nnx.vmap", "flax.nnx.grad", "flax.nnx.value_and_grad", "flax.nnx.scan", "functools.", "numpy.", "math.", "operator.", "itertools.", "optax.", "chex.")
+
+
+def _is_mutable_ctor(repo, mi, v):
+    if isinstance(v, (ast.Dict, ast.List, ast.Set, ast.ListComp, ast.DictComp, ast.SetComp)):
+        return True
+    if isinstance(v, ast.Call) and isinstance(v.func, (ast.Name, ast.Attribute)):
+        return (repo.resolve_expr(mi, v.func) or dotted(v.func)) in MUTABLE_CTORS
+    return False
+
+
+def _assigned_value(node):
+    return node.value if isinstance(node, (ast.Assign, ast.AnnAssign)) else None
+
+
+def _fn_chain(node):
+    """The function definitions / lambdas that enclose ``node``, innermost first."""
+    out, p = [], getattr(node, "_parent", None)
+    while p is not None:
+        if isinstance(p, (ast.FunctionDef, ast.AsyncFunctionDef, ast.Lambda)):
+            out.append(p)
+        p = getattr(p, "_parent", None)
+    return out
+
+
+def _scope_params(scope):
+    a = scope.args
+    return {x.arg for x in a.posonlyargs + a.args + a.kwonlyargs} | ({a.vararg.arg} if a.vararg else set()) | ({a.kwarg.arg} if a.kwarg else set())
+
+
+def _own_nodes(scope):
+    """Nodes of a function body that belong to its own scope (nested definitions are yielded, not entered)."""
+    stack = list(scope.body) if not isinstance(scope, ast.Lambda) else [scope.body]
+    while stack:
+        n = stack.pop()
+        yield n
+        if isinstance(n, (ast.FunctionDef, ast.AsyncFunctionDef, ast.Lambda, ast.ClassDef)):
+            continue
+        stack.extend(ast.iter_child_nodes(n))
+
+
+def _scope_table(scope):
+    """(names declared global, {local name: bindings}) of one function scope, computed once.  A binding is (kind, node) with kind 'expr'
+    (the value the name holds / is drawn from), 'expr~' (one component of that value: an over-approximation), 'def' (a nested function),
+    'const' (import, exception, class), 'unknown'."""
+    tab = scope.__dict__.get("_c09_tab")
+    if tab is not None:
+        return tab
+    glob, bind = set(), {}
+    if isinstance(scope, ast.Lambda):
+        tab = scope.__dict__["_c09_tab"] = (glob, bind)
+        return tab
+    for n in _own_nodes(scope):
+        if isinstance(n, ast.Global):
+            glob |= set(n.names)
+        elif isinstance(n, (ast.FunctionDef, ast.AsyncFunctionDef, ast.ClassDef)):
+            bind.setdefault(n.name, []).append(("def" if not isinstance(n, ast.ClassDef) else "const", n))
+        elif isinstance(n, (ast.Import, ast.ImportFrom)):
+            for a in n.names:
+                bind.setdefault(a.asname or a.name.split(".")[0], []).append(("const", n))
+        elif isinstance(n, ast.ExceptHandler) and n.name:
+            bind.setdefault(n.name, []).append(("const", n))
+        elif isinstance(n, ast.Name) and isinstance(n.ctx, ast.Store):
+            out = bind.setdefault(n.id, [])
+            p = getattr(n, "_parent", None)
+            top = p
+            while isinstance(top, (ast.Tuple, ast.List, ast.Starred)):
+                top = getattr(top, "_parent", None)
+            if isinstance(top, ast.comprehension):
+                if not out:
+                    del bind[n.id]
+                continue     # scoped to the comprehension: resolved where it is read
+            direct = top is p
+            if isinstance(top, ast.Assign):
+                v = top.value
+                if direct:
+                    out.append(("expr", v))
+                elif isinstance(p, (ast.Tuple, ast.List)) and any(p is t for t in top.targets) and isinstance(v, (ast.Tuple, ast.List)) and len(v.elts) == len(p.elts) \
+                        and not any(isinstance(x, ast.Starred) for x in list(v.elts) + list(p.elts)):
+                    out.append(("expr", v.elts[[x is n for x in p.elts].index(True)]))
+                else:
+                    out.append(("expr~", v))
+            elif isinstance(top, ast.AnnAssign):
+                out.append(("expr", top.value) if top.value is not None else ("const", top))
+            elif isinstance(top, (ast.AugAssign, ast.NamedExpr)):
+                out.append(("expr", top.value))
+            elif isinstance(top, (ast.For, ast.AsyncFor)):
+                out.append(("expr" if direct else "expr~", top.iter))
+            elif isinstance(top, ast.withitem):
+                out.append(("expr" if direct else "expr~", top.context_expr))
+            else:
+                out.append(("unknown", top))
+    for g_ in glob:
+        bind.pop(g_, None)
+    tab = scope.__dict__["_c09_tab"] = (glob, bind)
+    return tab
+
+
+def _scope_bindings(scope, name):
+    return _scope_table(scope)[1].get(name, [])
+
+
+def _scope_globals(scope):
+    return _scope_table(scope)[0]
+
+
+def _comprehension_binding(x):
+    """The iterable that a comprehension enclosing the name read ``x`` draws it from, if any."""
+    child, p = x, getattr(x, "_parent", None)
+    while p is not None and not isinstance(p, (ast.FunctionDef, ast.AsyncFunctionDef, ast.Lambda, ast.Module)):
+        if isinstance(p, (ast.ListComp, ast.SetComp, ast.GeneratorExp, ast.DictComp)):
+            for g in p.generators:
+                if any(isinstance(t, ast.Name) and t.id == x.id for t in ast.walk(g.target)):
+                    return g.iter
+        child, p = p, getattr(p, "_parent", None)
+    return None
+
+
+class _Deps:
+    """Which inputs of the routine a value is built from.  An *atom* is a maximal attribute chain rooted at a parameter of one of the
+    functions that enclose ``site`` (`action_space.low`); locals are replaced by what they are bound to (scope by scope), names bound
+    inside the value (lambda / nested-function parameters, comprehension variables) are not inputs, module-level names are constants of
+    the process.  ``inexact`` is set when a step over-approximated (one component of an unpacked value)."""
+
+    def __init__(self, site, not_inputs=()):
+        self.outer = _fn_chain(site)
+        self.not_inputs = set(not_inputs)
+        self.inexact = False
+        self.unknown = False
+        self._busy = set()
+
+    def resolve(self, x):
+        """('param', None) / ('bound', None) / ('local', bindings) / ('module', None) for the name read ``x``."""
+        it = _comprehension_binding(x)
+        if it is not None:
+            return "local", [("expr", it)]
+        for sc in _fn_chain(x):
+            if x.id in _scope_params(sc):
+                if x.id in self.not_inputs:
+                    return "module", None
+                return ("param" if any(sc is o for o in self.outer) else "bound"), None
+            if isinstance(sc, ast.Lambda):
+                continue
+            if x.id in _scope_globals(sc):
+                return "module", None
+            bs = _scope_bindings(sc, x.id)
+            if bs:
+                return "local", bs
+        return "module", None
+
+    @staticmethod
+    def chain_above(x):
+        """(attribute / constant-subscript chain that starts at the name ``x``, its top node); the name of a called method is not part."""
+        tail, cur, p = [], x, getattr(x, "_parent", None)
+        while True:
+            if isinstance(p, ast.Attribute) and p.value is cur:
+                tail.append(p.attr)
+            elif isinstance(p, ast.Subscript) and p.value is cur and isinstance(p.slice, ast.Constant):
+                tail.append(f"[{p.slice.value!r}]")
+            else:
+                break
+            cur, p = p, getattr(p, "_parent", None)
+        if tail and isinstance(p, ast.Call) and p.func is cur and isinstance(cur, ast.Attribute):
+            tail.pop()
+        return tail
+
+    def pure_chain(self, e):
+        """The input chain that the expression ``e`` is a plain reference to (`env.action_space`, a local copy of it), else None."""
+        tail = []
+        while True:
+            if isinstance(e, ast.Attribute):
+                tail.append(e.attr)
+                e = e.value
+            elif isinstance(e, ast.Subscript) and isinstance(e.slice, ast.Constant):
+                tail.append(f"[{e.slice.value!r}]")
+                e = e.value
+            else:
+                break
+        if not isinstance(e, ast.Name):
+            return None
+        kind, bs = self.resolve(e)
+        if kind == "param":
+            return (e.id,) + tuple(reversed(tail))
+        if kind == "local" and len(bs) == 1 and bs[0][0] == "expr" and (id(bs[0][1]) not in self._busy):
+            self._busy.add(id(bs[0][1]))
+            try:
+                base = self.pure_chain(bs[0][1])
+            finally:
+                self._busy.discard(id(bs[0][1]))
+            if base is not None:
+                return base + tuple(reversed(tail))
+        return None
+
+    def atoms(self, node):
+        out = set()
+        for x in ast.walk(node):
+            if isinstance(x, ast.Name) and isinstance(x.ctx, ast.Load):
+                out |= self.of_name(x)
+        return out
+
+    def of_name(self, x):
+        kind, bs = self.resolve(x)
+        if kind == "param":
+            return {(x.id,) + tuple(self.chain_above(x))}
+        if kind != "local":
+            return set()
+        if len(bs) == 1 and bs[0][0] == "expr":
+            base = self.pure_chain(bs[0][1])
+            if base is not None:
+                return {base + tuple(self.chain_above(x))}
+        out = set()
+        for k, v in bs:
+            if k == "const":
+                continue
+            if k == "unknown":
+                self.unknown = True
+                continue
+            if k == "expr~":
+                self.inexact = True
+            if id(v) in self._busy:
+                continue
+            self._busy.add(id(v))
+            try:
+                out |= self.atoms(v)
+            finally:
+                self._busy.discard(id(v))
+        return out
+
+    # -- the key of a lookup: which inputs it pins down ------------------------------------------------------------------------
+    def key_atoms(self, e, repo, mi, status="whole"):
+        """[(chain, status)]: status 'whole' - the key holds that input itself (possibly converted), so equal keys mean equal values of
+        it and of everything reached through it; 'unknown' - the key holds something computed from it."""
+        if isinstance(e, (ast.Tuple, ast.List, ast.Set)):
+            return [a for x in e.elts for a in self.key_atoms(x.value if isinstance(x, ast.Starred) else x, repo, mi, status)]
+        if isinstance(e, ast.Constant):
+            return []
+        if isinstance(e, ast.JoinedStr):
+            return [a for x in e.values if isinstance(x, ast.FormattedValue) for a in self.key_atoms(x.value, repo, mi, status)]
+        if isinstance(e, (ast.Name, ast.Attribute)) or (isinstance(e, ast.Subscript) and isinstance(e.slice, ast.Constant)):
+            ch = self.pure_chain(e)
+            if ch is not None:
+                return [(ch, status)]
+            if isinstance(e, ast.Name):
+                kind, bs = self.resolve(e)
+                if kind == "local" and all(k == "expr" for k, _ in bs):
+                    out = []
+                    for _, v in bs:
+                        if id(v) in self._busy:
+                            continue
+                        self._busy.add(id(v))
+                        try:
+                            out += self.key_atoms(v, repo, mi, status)
+                        finally:
+                            self._busy.discard(id(v))
+                    return out
+            return [(a, "unknown") for a in self.atoms(e)]
+        if isinstance(e, ast.Call) and not any(isinstance(a, ast.Starred) for a in e.args):
+            f = e.func
+            if isinstance(f, ast.Name) and self.resolve(f)[0] == "module" and repo.resolve_name(mi, f.id) is None:
+                if f.id in KEY_LOSSLESS_FUNCS:
+                    return [a for x in e.args for a in self.key_atoms(x, repo, mi, status)]
+                if f.id in KEY_LOSSY_FUNCS:
+                    return [(a + (f"<{f.id}>",), status) for x in e.args for a in self.atoms(x)]      # pins down a summary of the input only
+            if isinstance(f, ast.Attribute) and f.attr in KEY_LOSSLESS_METHODS:
+                return self.key_atoms(f.value, repo, mi, status)
+            d = repo.resolve_expr(mi, f) if isinstance(f, (ast.Name, ast.Attribute)) and _root_is_module(self, f) else None
+            if d and d.startswith(("numpy.", "jax.numpy.", "jax.")) and d.rsplit(".", 1)[1] in KEY_LOSSLESS_LIB:
+                return [a for x in e.args for a in self.key_atoms(x, repo, mi, status)]
+        return [(a, "unknown") for a in self.atoms(e)]
+
+
+def _root_is_module(deps, f):
+    while isinstance(f, ast.Attribute):
+        f = f.value
+    return isinstance(f, ast.Name) and deps.resolve(f)[0] == "module"
+
+
+class _StateIndex:
+    """Objects that live as long as the process and can be written from inside a function: module-level mutable containers, module globals
+    that a function rebinds (`global x`), containers in a class body that no method shadows on the instance, mutable parameter defaults."""
+
+    def __init__(self, repo, funcs, closure):
+        self.repo = repo
+        self.rebound = set()
+        for q in closure:
+            fn, mi = funcs[q]
+            for n in ast.walk(fn):
+                if isinstance(n, ast.Global):
+                    self.rebound |= {f"{mi.name}.{x}" for x in n.names}
+        self._cls = {}
+
+    def module_var(self, qual):
+        """The state id of the module-level variable ``qual`` (`pkg.mod.NAME`) when it is process state, else None."""
+        mod, _, nm = qual.rpartition(".")
+        m2 = self.repo.modules.get(mod)
+        if m2 is None or nm not in m2.defs:
+            return None
+        v = _assigned_value(m2.defs[nm])
+        if qual in self.rebound or (v is not None and _is_mutable_ctor(self.repo, m2, v)):
+            return qual
+        return None
+
+    def class_var(self, cq, attr):
+        """State id of a container defined in the body of class ``cq`` (or of a base class) that no method replaces on the instance."""
+        key = (cq, attr)
+        if key not in self._cls:
+            r = None
+            try:
+                mro = self.repo.mro(cq)
+                shadowed = False
+                for c_ in mro:
+                    c = self.repo.cls(c_)
+                    for m in c.body:
+                        if isinstance(m, ast.FunctionDef):
+                            for n in ast.walk(m):
+                                if isinstance(n, ast.Attribute) and n.attr == attr and isinstance(n.ctx, ast.Store) and isinstance(n.value, ast.Name) and n.value.id in ("self", "cls") \
+                                        and isinstance(getattr(n, "_parent", None), (ast.Assign, ast.AnnAssign)):
+                                    shadowed = True
+                if not shadowed:
+                    for c_ in mro:
+                        c = self.repo.cls(c_)
+                        for s in c.body:
+                            tg = s.targets if isinstance(s, ast.Assign) else [s.target] if isinstance(s, ast.AnnAssign) else []
+                            if any(isinstance(t, ast.Name) and t.id == attr for t in tg) and s.value is not None and _is_mutable_ctor(self.repo, self.repo.lookup(c_)[0], s.value):
+                                r = f"{c_}.{attr}"
+                                break
+                        if r:
+                            break
+            except Exception:
+                r = None
+            self._cls[key] = r
+        return self._cls[key]
+
+    def of(self, mi, fn, e, default_state, depth=0):
+        """State id that the expression ``e`` (a name / attribute read inside ``fn``) denotes, else None."""
+        repo = self.repo
+        if isinstance(e, ast.Name):
+            for sc in _fn_chain(e):
+                if e.id in _scope_globals(sc):
+                    return f"{mi.name}.{e.id}"
+                if e.id in _scope_params(sc):
+                    return default_state.get((id(sc), e.id))
+                if isinstance(sc, ast.Lambda):
+                    continue
+                bs = _scope_bindings(sc, e.id)
+                if bs:
+                    # a local copy of the container (`cache = _CACHE`)
+                    if depth < 4 and all(k == "expr" and isinstance(v, (ast.Name, ast.Attribute)) for k, v in bs):
+                        ss = {self.of(mi, fn, v, default_state, depth + 1) for _, v in bs}
+                        if len(ss) == 1:
+                            return ss.pop()
+                    return None
+            if _comprehension_binding(e) is not None:
+                return None
+            if e.id in mi.defs and isinstance(mi.defs[e.id], (ast.Assign, ast.AnnAssign)):
+                return self.module_var(f"{mi.name}.{e.id}")
+            tgt = mi.imports.get(e.id)
+            if tgt and tgt.startswith(repo.PKG + "."):
+                return self.module_var(tgt)
+            return None
+        if isinstance(e, ast.Attribute) and isinstance(e.value, ast.Name):
+            base = e.value
+            if base.id in ("self", "cls") and any(base.id in _scope_params(sc) for sc in _fn_chain(e)):
+                c = _owner_class(fn)
+                if isinstance(c, ast.ClassDef):
+                    try:
+                        return self.class_var(repo.canonical(f"{mi.name}.{c.name}", c), e.attr)
+                    except Exception:
+                        return None
+                return None
+            if any(base.id in _scope_params(sc) or (not isinstance(sc, ast.Lambda) and _scope_bindings(sc, base.id)) for sc in _fn_chain(e)):
+                return None
+            d = repo.resolve_name(mi, base.id)
+            if d and d in repo.modules:
+                return self.module_var(f"{d}.{e.attr}")
+            if d and d.startswith(repo.PKG + "."):
+                try:
+                    _, node = repo.lookup(d)
+                except Exception:
+                    return None
+                if isinstance(node, ast.ClassDef):
+                    return self.class_var(d, e.attr)
+                if isinstance(node, (ast.FunctionDef, ast.AsyncFunctionDef)) and not e.attr.startswith("__"):
+                    return f"{d}.{e.attr}"        # an attribute hung on a function object (`f._cache`) lives as long as the module
+        return None
+
+
+def _default_states(repo, q, fn, mi):
+    """{(id(scope), parameter): state id} for the parameters of ``fn`` whose default is a mutable container built once at definition time
+    and that some call inside the package leaves to that default (or that nothing in the package passes)."""
+    out = {}
+    a = fn.args
+    pos = a.posonlyargs + a.args
+    pairs = list(zip(pos[len(pos) - len(a.defaults):], a.defaults)) + [(p_, d_) for p_, d_ in zip(a.kwonlyargs, a.kw_defaults) if d_ is not None]
+    for p_, d_ in pairs:
+        if not _is_mutable_ctor(repo, mi, d_):
+            continue
+        sites = _construction_sites(repo, q)
+        passed = []
+        for _, site, _ in sites:
+            if any(isinstance(x, ast.Starred) for x in site.args) or any(k.arg is None for k in site.keywords):
+                passed.append(True)
+                continue
+            try:
+                passed.append(p_.arg in bind_call(fn, site, skip_self=isinstance(getattr(fn, "_parent", None), ast.ClassDef)))
+            except Exception:
+                passed.append(True)
+        if not sites or not all(passed):
+            out[(id(fn), p_.arg)] = f"{q}.<default of {p_.arg}>"
+    return out
+
+
+def _state_accesses(index, repo, q, fn, mi):
+    """Every access of a process-state object inside ``fn`` (nested functions included), classified by what it does."""
+    out = []
+    defaults = _default_states(repo, q, fn, mi)
+    for r in ast.walk(fn):
+        if not isinstance(r, (ast.Name, ast.Attribute)):
+            continue
+        st = index.of(mi, fn, r, defaults)
+        if st is None:
+            continue
+        p = getattr(r, "_parent", None)
+        pp = getattr(p, "_parent", None)
+        acc = {"state": st, "q": q, "fn": fn, "mi": mi, "root": r, "node": r, "key": None, "value": None, "kind": "use"}
+        if isinstance(r.ctx, (ast.Store, ast.Del)):
+            if isinstance(r, ast.Name):
+                scs = [sc for sc in _fn_chain(r) if not isinstance(sc, ast.Lambda)]
+                if not scs or r.id not in _scope_globals(scs[0]):
+                    continue      # binding a local name (a copy of the reference) changes nothing that outlives the call
+            direct = isinstance(p, (ast.Assign, ast.AnnAssign)) and (any(t is r for t in p.targets) if isinstance(p, ast.Assign) else p.target is r)
+            if isinstance(r.ctx, ast.Store) and direct and p.value is not None:
+                acc.update(kind="gstore", value=p.value, node=p)
+            elif isinstance(p, ast.AnnAssign) and p.value is None:
+                continue
+            else:
+                acc.update(kind="mutate", node=p if p is not None else r)
+        elif isinstance(p, ast.Subscript) and p.value is r:
+            if isinstance(p.ctx, ast.Store):
+                direct = isinstance(pp, (ast.Assign, ast.AnnAssign)) and (any(t is p for t in pp.targets) if isinstance(pp, ast.Assign) else pp.target is p)
+                if direct and pp.value is not None:
+                    acc.update(kind="store", key=p.slice, value=pp.value, node=pp)
+                else:
+                    acc.update(kind="mutate", node=pp if pp is not None else p)
+            elif isinstance(p.ctx, ast.Del):
+                acc.update(kind="remove", node=pp if pp is not None else p)
+            else:
+                # an entry that is changed in place (`M[k].append(v)`, `M[k][j] = v`, `M[k].x = v`) is a write to what outlives the call
+                cur_, up_ = p, pp
+                while isinstance(up_, (ast.Subscript, ast.Attribute)) and up_.value is cur_ and isinstance(up_.ctx, ast.Load):
+                    cur_, up_ = up_, getattr(up_, "_parent", None)
+                if isinstance(up_, (ast.Subscript, ast.Attribute)) and up_.value is cur_ and isinstance(up_.ctx, (ast.Store, ast.Del)):
+                    acc.update(kind="mutate", node=getattr(up_, "_parent", None) or up_)
+                elif isinstance(up_, ast.Call) and up_.func is cur_ and isinstance(cur_, ast.Attribute) and cur_.attr in MUTATING_METHODS | {"setdefault"} and cur_ is not p:
+                    acc.update(kind="mutate", node=up_)
+                else:
+                    acc.update(kind="read", key=p.slice, node=p)
+        elif isinstance(p, ast.Attribute) and p.value is r and isinstance(pp, ast.Call) and pp.func is p:
+            m, args = p.attr, pp.args
+            plain = not any(isinstance(x, ast.Starred) for x in args) and not pp.keywords
+            if m == "setdefault" and plain and len(args) in (1, 2):
+                acc.update(kind="store", key=args[0], value=args[1] if len(args) == 2 else ast.Constant(value=None), node=pp, conditional=True)
+                out.append(dict(acc, kind="read", value=None, conditional=True))
+            elif m in ("get", "__getitem__") and plain and len(args) in (1, 2):
+                acc.update(kind="read", key=args[0], node=pp)
+            elif m == "__contains__" and plain and len(args) == 1:
+                acc.update(kind="in", key=args[0], node=pp)
+            elif m == "__setitem__" and plain and len(args) == 2:
+                acc.update(kind="store", key=args[0], value=args[1], node=pp)
+            elif m in REMOVING_METHODS and isinstance(getattr(pp, "_parent", None), ast.Expr):
+                acc.update(kind="remove", node=pp)     # result discarded: entries are dropped / reordered, none is made
+            elif m in MUTATING_METHODS or m == "setdefault":
+                acc.update(kind="mutate", node=pp)
+            else:
+                acc.update(kind="use", node=pp)
+        elif isinstance(p, ast.Compare) and len(p.ops) == 1 and isinstance(p.ops[0], (ast.In, ast.NotIn)) and p.comparators[0] is r:
+            acc.update(kind="in", key=p.left, node=p)
+        elif isinstance(p, (ast.Assign, ast.AnnAssign)) and p.value is r and all(isinstance(t, ast.Name) for t in (p.targets if isinstance(p, ast.Assign) else [p.target])):
+            tn = (p.targets if isinstance(p, ast.Assign) else [p.target])[0]
+            if any(isinstance(x, ast.Name) and x.id == tn.id and x is not tn and index.of(mi, fn, x, defaults) == st for x in ast.walk(fn)):
+                continue     # a local copy of the reference: its accesses are found under the copy's name
+        out.append(acc)
+    return out
+
+
+def _harmless_observation(repo, acc, sinks, index, defaults_of):
+    """The value observed by ``acc`` only reaches log output, or decides a branch that holds nothing but log output and writes to the
+    same state object (warn-once bookkeeping).  Returns (harmless, uses)."""
+    mi, fn, st = acc["mi"], acc["fn"], acc["state"]
+    inner = [sc for sc in _fn_chain(acc["node"]) if not isinstance(sc, ast.Lambda)]
+    owner = inner[0] if inner else fn          # locals are followed in the function that holds the access
+    try:
+        uses = _value_uses(repo, mi, owner, acc["node"], sinks)
+    except Exception:
+        return False, [("other", acc["node"])]
+    if not uses:
+        return False, [("other", acc["node"])]
+    local = _local_names(fn)
+
+    def bookkeeping(stmts):
+        for s in stmts:
+            if isinstance(s, ast.Pass) or (isinstance(s, ast.Expr) and isinstance(s.value, ast.Call) and _is_log_call(repo, mi, s.value, sinks, local)):
+                continue
+            if isinstance(s, ast.If) and bookkeeping(s.body + s.orelse):
+                continue
+            tgt = None
+            if isinstance(s, ast.Expr) and isinstance(s.value, ast.Call) and isinstance(s.value.func, ast.Attribute):
+                tgt = s.value.func.value
+            elif isinstance(s, (ast.Assign, ast.AugAssign, ast.AnnAssign)):
+                t = s.targets[0] if isinstance(s, ast.Assign) and len(s.targets) == 1 else s.target if isinstance(s, (ast.AugAssign, ast.AnnAssign)) else None
+                tgt = t.value if isinstance(t, ast.Subscript) else t
+            if isinstance(tgt, (ast.Name, ast.Attribute)) and index.of(mi, fn, tgt, defaults_of(acc)) == st:
+                continue
+            return False
+        return True
+
+    for k, c in uses:
+        if k in ("log", "drop"):
+            continue
+        if k == "test" and isinstance(c, ast.If) and bookkeeping(c.body + c.orelse):
+            continue
+        if k == "other" and isinstance(c, (ast.Assign, ast.AugAssign, ast.AnnAssign)) and bookkeeping([c]):
+            continue      # flows back into the same object (a running total): judged where that object is observed
+        return False, uses
+    return True, uses
+
+
+def _feeds_on_itself(cfg, store, observers):
+    """The value written by ``store`` is computed from what the same object held before (`M[k] = M.get(k, 0) + x`, also through locals
+    whose definitions reach the store): the write extends the history instead of replacing it."""
+    obs = {id(a["node"]) for a in observers} | {id(a["root"]) for a in observers}
+    try:
+        at0 = cfg.node_of(store["node"]).id
+    except Exception:
+        return True
+    seen, work = set(), [(store["value"], at0)]
+    while work:
+        e, at = work.pop()
+        for x in ast.walk(e):
+            if id(x) in obs:
+                return True
+            if isinstance(x, ast.Name) and isinstance(x.ctx, ast.Load):
+                try:
+                    ds = cfg.defs_of(at, x.id)
+                except Exception:
+                    ds = []
+                for d in ds:
+                    if d.value is not None and isinstance(d.value, ast.AST) and (d.node, x.id) not in seen:
+                        seen.add((d.node, x.id))
+                        work.append((d.value.value if isinstance(d.value, ast.AugAssign) else d.value, d.node))
+    return False
+
+
+def _process_state_guarded(ck, repo, funcs, closure, sinks):
+    try:
+        _process_state(ck, repo, funcs, closure, sinks)
+    except AnalysisError:
+        raise
+    except Exception as e:     # a construct the reader of scopes / accesses was not written for: undecided, never a crash
+        raise AnalysisError(f"R6-process-state: the accesses of process-level state could not be read ({type(e).__name__}: {str(e)[:80]}) (unrecognised form)") from e
+
+
+def _process_state(ck, repo, funcs, closure, sinks):
+    """R6: a training routine is a function of its arguments only if nothing it reads was left behind by an earlier call.  For every
+    process-state object that code in the closure writes: who observes it?  Only log output -> fine.  A keyed store / lookup pair (or a
+    lazily initialised global) is a memo: the entry a later call receives was built from the *earlier* call's inputs, so every input the
+    stored value is built from has to be pinned down by the lookup key; an input that the key does not hold is a dataflow witness of
+    history dependence.  Any other observed mutation is undecided."""
+    index = _StateIndex(repo, funcs, closure)
+    by_state = {}
+    n_fn = 0
+    dflt = {}
+    transparent = repo.transparent_helpers()
+    for q in sorted(closure):
+        if "<locals>" in q or q in transparent:
+            continue          # nested functions are walked with their parent; a helper whose every call was expanded is read at its call sites
+        fn, mi = funcs[q]
+        n_fn += 1
+        for a in _state_accesses(index, repo, q, fn, mi):
+            by_state.setdefault(a["state"], []).append(a)
+
+    def defaults_of(acc):
+        k = acc["q"]
+        if k not in dflt:
+            dflt[k] = _default_states(repo, k, acc["fn"], acc["mi"])
+        return dflt[k]
+
+    n_written = 0
+    called_in_bodies = None
+    for st, accs in sorted(by_state.items()):
+        writes = [a for a in accs if a["kind"] in ("store", "gstore", "mutate", "remove")]
+        if not writes:
+            continue          # a table that is only read: a constant of the process
+        # a module-level function that no function body refers to runs while the modules are imported (registration decorators, table set-up):
+        # what it writes is in place before any training routine starts and is the same in every process
+        if called_in_bodies is None:
+            called_in_bodies = set()
+            for q2, fn2, mi2 in repo.all_functions():
+                if "<locals>" in q2:
+                    continue
+                for n in ast.walk(fn2):
+                    if isinstance(n, ast.Name) and isinstance(n.ctx, ast.Load) and n.id not in _scope_params(fn2):
+                        r_ = repo.resolve_name(mi2, n.id)
+                        if r_:
+                            called_in_bodies.add(r_)
+                    elif isinstance(n, ast.Attribute) and isinstance(n.ctx, ast.Load):
+                        r_ = repo.resolve_expr(mi2, n)
+                        if r_:
+                            called_in_bodies.add(r_)
+        def at_import_only(a):
+            f_ = a["fn"]
+            return isinstance(getattr(f_, "_parent", None), ast.Module) and a["q"] not in called_in_bodies and not any(a["q"] == e_ for e_ in entry_points(repo))
+        accs = [a for a in accs if not (a["kind"] in ("store", "gstore", "mutate", "remove") and at_import_only(a))]
+        writes = [a for a in accs if a["kind"] in ("store", "gstore", "mutate", "remove")]
+        if not writes:
+            continue
+        n_written += 1
+        w0 = writes[0]
+        where = loc(w0["mi"], w0["node"])
+        observers = [a for a in accs if a["kind"] in ("read", "in", "use")]
+        live = []
+        for a in observers:
+            ok_, uses = _harmless_observation(repo, a, sinks, index, defaults_of)
+            a["uses"] = uses
+            if not ok_:
+                live.append(a)
+        if not live:
+            ck.ob("R6-process-state", w0["q"], f"state:{st}", True, f"`{short(w0['node'], 60)}`: what is kept in `{st}` only reaches log output", "", where)
+            continue
+        und = lambda why: ck.incomplete.append(f"{w0['q']}: `{st}` outlives the call and is written by `{short(w0['node'], 50)}` - {why} (unrecognised form)")
+        odd = [a for a in writes if a["kind"] == "mutate"] + [a for a in live if a["kind"] == "use" and not isinstance(a["root"].ctx, ast.Store)]
+        stores = [a for a in writes if a["kind"] in ("store", "gstore")]
+        is_global = any(a["kind"] == "gstore" for a in stores)
+        if is_global:
+            # a rebound global is read by name: those reads are its value reads
+            for a in live:
+                if a["kind"] == "use" and a["node"] is a["root"]:
+                    a["kind"] = "read"
+            odd = [a for a in writes if a["kind"] == "mutate"] + [a for a in live if a["kind"] == "use"]
+            if any(a["kind"] == "store" for a in stores):
+                odd.append(stores[0])
+        for a in stores:
+            inner_ = [sc for sc in _fn_chain(a["node"]) if not isinstance(sc, ast.Lambda)]
+            try:
+                if inner_ and _feeds_on_itself(_cfg(inner_[0]), a, observers):
+                    a["kind"] = "mutate"
+                    odd.append(a)
+            except Exception:
+                odd.append(a)
+        if odd:
+            # what earlier calls accumulated there (append / += / update ...) reaches the seed of a generator: the stream depends on the process history
+            grows = [a for a in writes if a["kind"] == "mutate" and not (isinstance(a["node"], ast.Call) and isinstance(a["node"].func, ast.Attribute) and a["node"].func.attr in REMOVING_METHODS)]
+            seeded = [(a, c) for a in live for k, c in a.get("uses", []) if k == "rng"]
+            if grows and seeded:
+                a, c = seeded[0]
+                ck.ob("R6-process-state", a["q"], f"seed:{st}", False, f"`{short(c, 80)}`",
+                      f"`{st}` outlives the call and is changed by `{short(grows[0]['node'], 50)}` each time; what has accumulated there reaches the seed of `{short(c, 50)}`: the random stream of a run depends on how many runs the process made before", loc(a["mi"], c))
+                continue
+            und(f"`{short(odd[0]['node'], 50)}` changes / observes it as a whole; whether a result depends on what earlier calls left there is not decided")
+            continue
+        if not stores:
+            und("entries are removed from it and what remains is observed; whether a result depends on what earlier calls left there is not decided")
+            continue
+        owners = {id(_fn_chain(a["node"])[0]) if _fn_chain(a["node"]) else 0 for a in stores + live}
+        if len({a["q"] for a in stores + live}) != 1 or len(owners) != 1:
+            und("it is written and read by different functions; whether a result depends on what earlier calls left there is not decided")
+            continue
+        owner = _fn_chain(stores[0]["node"])[0]
+        # can a read see an entry that this call did not write?  (a read on a path that passes no store; setdefault by construction)
+        try:
+            cfg = _cfg(owner)
+            store_nodes = {cfg.node_of(a["node"]).id for a in stores}
+            value_reads = [a for a in live if a["kind"] == "read" and any(k in ("other", "rng") for k, _ in a.get("uses", [("other", None)]))]
+            sees_old = [a for a in value_reads if a.get("conditional") or (cfg.node_of(a["node"]).id not in store_nodes and cfg.paths_avoiding(cfg.entry, cfg.node_of(a["node"]).id, store_nodes) is not None)]
+        except Exception:
+            und("the control flow between its writes and reads is not read")
+            continue
+        if not value_reads:
+            und("only its membership is observed; whether a result depends on what earlier calls left there is not decided")
+            continue
+        if not sees_old:
+            ck.ob("R6-process-state", w0["q"], f"state:{st}", True, f"`{short(w0['node'], 60)}`: every read of `{st}` follows this call's own write", "", where)
+            continue
+        not_inputs = {p_ for (sid, p_), s_ in defaults_of(w0).items() if s_ == st}
+        verdicts = []
+        for s in stores:
+            deps = _Deps(s["node"], not_inputs)
+            katoms = deps.key_atoms(s["key"], repo, s["mi"]) if s["key"] is not None else []
+            kset = {(c, t) for c, t in katoms}
+            mismatch = False
+            for a in live:
+                if a["key"] is not None:
+                    d2 = _Deps(a["node"], not_inputs)
+                    if {(c, t) for c, t in d2.key_atoms(a["key"], repo, a["mi"])} != kset:
+                        mismatch = True
+            if mismatch:
+                verdicts.append(("und", "it is stored and looked up under keys that are not built from the same inputs"))
+                continue
+            vatoms = deps.atoms(s["value"])
+            whole = [c for c, t in katoms if t == "whole"]
+            maybe = [c for c, t in katoms if t != "whole"]
+            missing, unsure = [], []
+            called = {x.func.id for x in ast.walk(owner) if isinstance(x, ast.Call) and isinstance(x.func, ast.Name)}
+            for v in sorted(vatoms):
+                if any(v[:len(c)] == c for c in whole):
+                    continue
+                # a builder handed in by the caller (`make()`): which inputs it closes over is the caller's knowledge, not this function's
+                if any(v[:len(c)] == c or c[:len(v)] == v for c in maybe) or any(x in GEOMETRY_ATTRS for x in v) or (len(v) == 1 and v[0] in called):
+                    unsure.append(v)
+                else:
+                    missing.append(v)
+            if missing and not deps.inexact and not deps.unknown:
+                verdicts.append(("bad", s, missing, katoms))
+            elif missing or unsure or deps.unknown:
+                verdicts.append(("und", f"whether the lookup key pins down `{'.'.join((missing + unsure + [('?',)])[0])}`, from which the stored value is built, is not decided"))
+            else:
+                # the key pins down every input; an object with its own evolving state is still shared between the calls
+                gen = other = None
+                for c in ast.walk(s["value"]):
+                    if isinstance(c, ast.Call) and isinstance(c.func, (ast.Name, ast.Attribute)):
+                        root_mod = _root_is_module(deps, c.func)
+                        d = repo.resolve_expr(s["mi"], c.func) if root_mod else None
+                        if d in STATEFUL_GENERATORS:
+                            gen = gen or c
+                        elif d and d.startswith(repo.PKG + "."):
+                            try:
+                                if isinstance(repo.lookup(d)[1], ast.ClassDef):
+                                    other = other or c
+                            except Exception:
+                                other = other or c
+                        elif d and not d.startswith(PURE_VALUE_LIBS) and not d.startswith(repo.PKG + "."):
+                            other = other or c
+                        elif d is None and not (isinstance(c.func, ast.Name) and root_mod and c.func.id in SEED_BUILTINS | KEY_LOSSLESS_FUNCS) and not (isinstance(c.func, ast.Attribute) and c.func.attr in KEY_LOSSLESS_METHODS | SEED_METHODS):
+                            other = other or c
+                if gen is not None:
+                    verdicts.append(("gen", s, gen))
+                elif other is not None:
+                    verdicts.append(("und", f"the kept object is made by `{short(other, 40)}`; whether it carries state of its own from call to call is not decided"))
+                else:
+                    verdicts.append(("ok", s))
+        for v in verdicts:
+            s = v[1] if v[0] != "und" else None
+            if v[0] == "bad":
+                names = ", ".join("`" + ".".join(m) + "`" for m in v[2][:3])
+                held = ", ".join("`" + ".".join(c) + "`" for c in sorted({c for c, _ in v[3]}))
+                keytxt = (f"the key `{short(s['key'], 40)}` (it holds {held})" if held else f"the key `{short(s['key'], 40)}`") if s["key"] is not None else "nothing (a lazily initialised global has no key)"
+                ck.ob("R6-process-state", s["q"], f"memo:{st}", False, f"`{short(s['node'], 80)}`",
+                      f"`{st}` outlives the call; the kept value is built from {names} but a later call is handed it back on the strength of {keytxt}, which does not hold {names}: "
+                      f"a call that agrees on the key and differs there receives the object built for the earlier call - the training run depends on what the process did before", loc(s["mi"], s["node"]))
+            elif v[0] == "gen":
+                ck.ob("R6-process-state", s["q"], f"memo:{st}", False, f"`{short(s['node'], 80)}`",
+                      f"`{st}` outlives the call and keeps the random generator made by `{short(v[2], 50)}`: a later run continues the stream where the earlier one stopped instead of starting from its seed", loc(s["mi"], s["node"]))
+            elif v[0] == "ok":
+                ck.ob("R6-process-state", s["q"], f"memo:{st}", True, f"`{short(s['node'], 80)}`: every input of the kept value is part of the lookup key", "", loc(s["mi"], s["node"]))
+            else:
+                und(v[1])
+    ck.count("process-state-objects-written", n_written)
+    ck.ob("R6-process-state", "rl_blox", "closure-scanned", True, f"{n_fn} functions scanned for writes to module-level containers, rebound globals, class-level containers and mutable defaults: {n_written} written", "", "rl_blox/")
+
+
 _A = "rl_blox/algorithm/"
+_MSA = """    action_scale = 0.5 * (action_space.high - action_space.low)
+    return nnx.jit(
+        partial(
+            sample_actions,
+            action_space.low,
+            action_space.high,
+            action_scale,
+            exploration_noise,
+        )
+    )
+"""
+_MSA_DEF = "def make_sample_actions(\n"
+_MSA_BUILD = "nnx.jit(partial(sample_actions, action_space.low, action_space.high, 0.5 * (action_space.high - action_space.low), exploration_noise))"
+_DUCB_INIT = "    def __init__(self, n_arms, upper_bound, gamma, zeta=0.002, verbose=0):\n"
+_DUCB_PAD = """    def _padding_function(self, arm_idx):
+        return (
+            2
+            * self.upper_bound
+            * np.sqrt(
+                self.zeta
+                * np.log(self.total_frequency)
+                / self.discounted_frequencies[arm_idx]
+            )
+        )
+"""
+_DUCB_PAD_MEMO = """    def _padding_function(self, arm_idx):
+        if arm_idx not in self._pad_memo_:
+            self._pad_memo_[arm_idx] = 2 * self.upper_bound * np.sqrt(self.zeta * np.log(self.total_frequency) / self.discounted_frequencies[arm_idx])
+        return self._pad_memo_[arm_idx]
+"""
+_RB_ALLOC = """            for k, v in sample.items():
+                assert k in self.buffer, f"{k} not in {self.buffer.keys()}"
+                self.buffer[k] = np.empty(
+                    (self.buffer_size,) + np.asarray(v).shape,
+                    dtype=self.buffer[k].dtype,
+                )
+        for k, v in sample.items():
+            self.buffer[k][self.insert_idx] = v
+        self.insert_idx"""
+_RB_ALLOC_CARRIER = """            fresh_ = OrderedDict()
+            for name_, first_ in sample.items():
+                assert name_ in self.buffer, f"{name_} not in {self.buffer.keys()}"
+                fresh_[name_] = np.empty((self.buffer_size,) + np.asarray(first_).shape, dtype=self.buffer[name_].dtype)
+            self.buffer = fresh_
+"""
 MUTANTS = [
     {"id": "c09-seed-unwrapped-space", "file": _A + "td3.py", "rule": "R2", "find": "    env.action_space.seed(seed)", "replace": "    env.unwrapped.action_space.seed(seed)"},
     {"id": "c09-sample-unwrapped-space", "file": _A + "ddpg.py", "rule": "R2", "find": "            action = env.action_space.sample()", "replace": "            action = env.unwrapped.action_space.sample()"},
@@ -1111,6 +1944,24 @@ MUTANTS = [
     {"id": "c09-hash-str-seed", "file": _A + "ddpg.py", "rule": "R", "find": "    rng = np.random.default_rng(seed)", "replace": "    rng = np.random.default_rng(seed + hash(\"ddpg\") % 7)"},
     {"id": "c09-pid-seed", "file": _A + "ddpg.py", "rule": "R2", "edits": [("import chex\n", "import os\n\nimport chex\n"), ("    rng = np.random.default_rng(seed)", "    rng = np.random.default_rng(seed + os.getpid() % 2)")]},
     {"id": "c09-read-before-store-in-loop", "file": "rl_blox/blox/replay_buffer.py", "rule": "R5", "nth": 0, "find": "        for k, v in sample.items():\n            self.buffer[k][self.insert_idx] = v\n        self.insert_idx", "replace": "        self.evicted_ = {}\n        for k, v in sample.items():\n            self.evicted_[k] = np.array(self.buffer[k][self.insert_idx])\n            self.buffer[k][self.insert_idx] = v\n        self.insert_idx"},
+    {"id": "c09-read-evicted-slot-carrier-allocation", "file": "rl_blox/blox/replay_buffer.py", "rule": "R5", "nth": 0, "find": _RB_ALLOC,
+        "replace": _RB_ALLOC_CARRIER + "        self.evicted_ = {k: np.array(self.buffer[k][self.insert_idx]) for k in sample}\n        for k, v in sample.items():\n            self.buffer[k][self.insert_idx] = v\n        self.insert_idx"},
+    # R6: state that outlives the call
+    {"id": "c09-memo-key-without-bounds", "file": _A + "ddpg.py", "rule": "R6", "edits": [(_MSA_DEF, "_JITTED_ = {}\n\n\n" + _MSA_DEF),
+        (_MSA, "    k_ = (action_space.shape, exploration_noise)\n    if k_ in _JITTED_:\n        return _JITTED_[k_]\n    f_ = " + _MSA_BUILD + "\n    _JITTED_[k_] = f_\n    return f_\n")]},
+    {"id": "c09-memo-get-form-noise-only", "file": _A + "ddpg.py", "rule": "R6", "edits": [(_MSA_DEF, "_JITTED_ = dict()\n\n\n" + _MSA_DEF),
+        (_MSA, "    f_ = _JITTED_.get(float(exploration_noise))\n    if f_ is None:\n        lo_, hi_ = action_space.low, action_space.high\n        f_ = nnx.jit(lambda p_, o_, k_: sample_actions(lo_, hi_, 0.5 * (hi_ - lo_), exploration_noise, p_, o_, k_))\n        _JITTED_[float(exploration_noise)] = f_\n    return f_\n")]},
+    {"id": "c09-lazy-global-sampler", "file": _A + "ddpg.py", "rule": "R6", "edits": [(_MSA_DEF, "_SAMPLER_ = None\n\n\n" + _MSA_DEF),
+        (_MSA, "    global _SAMPLER_\n    if _SAMPLER_ is None:\n        _SAMPLER_ = " + _MSA_BUILD + "\n    return _SAMPLER_\n")]},
+    {"id": "c09-memo-in-mutable-default", "file": _A + "ddpg.py", "rule": "R6", "edits": [("    exploration_noise: float,\n) -> Callable[[nnx.Module, jnp.ndarray, jnp.ndarray], jnp.ndarray]:\n    action_scale", "    exploration_noise: float,\n    _memo_={},\n) -> Callable[[nnx.Module, jnp.ndarray, jnp.ndarray], jnp.ndarray]:\n    action_scale"),
+        (_MSA, "    return _memo_.setdefault(str(action_space.dtype), " + _MSA_BUILD + ")\n")]},
+    {"id": "c09-memo-on-function-attribute", "file": _A + "ddpg.py", "rule": "R6", "edits": [
+        (_MSA, "    k_ = (len(action_space.low), exploration_noise)\n    if k_ not in make_sample_actions.jitted_:\n        make_sample_actions.jitted_[k_] = " + _MSA_BUILD + "\n    return make_sample_actions.jitted_[k_]\n\n\nmake_sample_actions.jitted_ = {}\n")]},
+    {"id": "c09-class-level-memo", "file": "rl_blox/blox/mapb.py", "rule": "R6", "edits": [(_DUCB_INIT, "    _pad_memo_ = {}\n\n" + _DUCB_INIT), (_DUCB_PAD, _DUCB_PAD_MEMO)]},
+    {"id": "c09-kept-generator", "file": _A + "td3.py", "rule": "R6", "edits": [("import chex\nimport gymnasium as gym", "import chex\nimport gymnasium as gym\n\n_GENERATORS_ = {}"),
+        ("    rng = np.random.default_rng(seed)", "    if seed not in _GENERATORS_:\n        _GENERATORS_[seed] = np.random.default_rng(seed)\n    rng = _GENERATORS_[seed]")]},
+    {"id": "c09-call-counter-in-seed", "file": "rl_blox/blox/mapb.py", "rule": "R6", "edits": [("class DUCB:\n", "_MADE_ = []\n\n\nclass DUCB:\n"),
+        ("        self.n_arms = n_arms\n", "        self.n_arms = n_arms\n        _MADE_.append(n_arms)\n        stream_ = len(_MADE_)\n        self.rng_ = np.random.default_rng(stream_)\n")]},
 ]
 BENIGN = [
     {"id": "c09-b-read-after-store", "file": "rl_blox/blox/replay_buffer.py", "nth": 0, "find": "        for k, v in sample.items():\n            self.buffer[k][self.insert_idx] = v\n        self.insert_idx", "replace": "        for k, v in sample.items():\n            self.buffer[k][self.insert_idx] = v\n        self.last_added_ = {k: np.array(self.buffer[k][self.insert_idx]) for k in sample}\n        self.insert_idx"},
@@ -1129,4 +1980,29 @@ BENIGN = [
     {"id": "c09-b-ctor-seed-none-replaced-some-sites", "file": "rl_blox/blox/mapb.py", "edits": [("    def __init__(self, n_arms, upper_bound, gamma, zeta=0.002, verbose=0):\n", "    def __init__(self, n_arms, upper_bound, gamma, zeta=0.002, verbose=0, seed=None):\n        if seed is None:\n            seed = 0\n        self.rng_ = np.random.default_rng(seed)\n"),
         ("class DUCB:\n", "def make_seeded_ducb_(n_arms, seed):\n    return DUCB(n_arms, 1.0, 0.9, seed=seed)\n\n\nclass DUCB:\n")]},
     {"id": "c09-b-timedelta", "file": _A + "td3.py", "edits": [("import chex\nimport gymnasium as gym", "import datetime\n\nimport chex\nimport gymnasium as gym"), ("    while step < total_timesteps:\n", "    budget_ = datetime.timedelta(seconds=60).total_seconds()\n    while step < total_timesteps:\n")]},
+    {"id": "c09-b-carrier-allocation", "file": "rl_blox/blox/replay_buffer.py", "nth": 0, "find": _RB_ALLOC,
+        "replace": _RB_ALLOC_CARRIER + "        for k, v in sample.items():\n            self.buffer[k][self.insert_idx] = v\n        self.insert_idx"},
+    # R6: memo forms whose key pins down every input, bookkeeping that only reaches log output, state that does not outlive the call
+    {"id": "c09-b-memo-complete-key", "file": _A + "ddpg.py", "edits": [(_MSA_DEF, "_JITTED_ = {}\n\n\n" + _MSA_DEF),
+        (_MSA, "    k_ = (action_space.low.tobytes(), action_space.high.tobytes(), float(exploration_noise))\n    if k_ in _JITTED_:\n        return _JITTED_[k_]\n    f_ = " + _MSA_BUILD + "\n    _JITTED_[k_] = f_\n    return f_\n")]},
+    {"id": "c09-b-memo-lru-eviction", "file": _A + "ddpg.py", "edits": [(_MSA_DEF, "from collections import OrderedDict\n\n_JITTED_ = OrderedDict()\n\n\n" + _MSA_DEF),
+        (_MSA, "    lo_, hi_ = action_space.low, action_space.high\n    k_ = (tuple(lo_.tolist()), tuple(hi_.tolist()), exploration_noise)\n    f_ = _JITTED_.get(k_)\n    if f_ is None:\n        f_ = nnx.jit(partial(sample_actions, lo_, hi_, 0.5 * (hi_ - lo_), exploration_noise))\n        _JITTED_[k_] = f_\n        if len(_JITTED_) > 16:\n            _JITTED_.popitem(last=False)\n    else:\n        _JITTED_.move_to_end(k_)\n    return f_\n")]},
+    {"id": "c09-b-memo-helper-complete-key", "file": _A + "ddpg.py", "edits": [(_MSA_DEF, "_JITTED_ = {}\n\n\ndef _memoised_(key, make):\n    if key not in _JITTED_:\n        _JITTED_[key] = make()\n    return _JITTED_[key]\n\n\n" + _MSA_DEF),
+        (_MSA, "    return _memoised_((action_space.low.tobytes(), action_space.high.tobytes(), exploration_noise), lambda: " + _MSA_BUILD + ")\n")]},
+    {"id": "c09-b-lazy-global-of-constant", "file": _A + "ddpg.py", "edits": [(_MSA_DEF, "_JIT_ = None\n\n\n" + _MSA_DEF),
+        (_MSA, "    global _JIT_\n    if _JIT_ is None:\n        _JIT_ = nnx.jit(sample_actions)\n    return partial(_JIT_, action_space.low, action_space.high, 0.5 * (action_space.high - action_space.low), exploration_noise)\n")]},
+    {"id": "c09-b-warn-once", "file": _A + "ddpg.py", "edits": [(_MSA_DEF, "import warnings\n\n_WARNED_ = set()\n\n\n" + _MSA_DEF),
+        (_MSA, "    if exploration_noise > 1.0 and exploration_noise not in _WARNED_:\n        warnings.warn(\"large exploration noise\")\n        _WARNED_.add(exploration_noise)\n" + _MSA)]},
+    {"id": "c09-b-running-total-logged", "file": _A + "ddpg.py", "edits": [(_MSA_DEF, "_MADE_ = {}\n\n\n" + _MSA_DEF),
+        (_MSA, "    before_ = _MADE_.get(exploration_noise, 0)\n    _MADE_[exploration_noise] = before_ + 1\n    print(\"samplers with this noise so far:\", _MADE_[exploration_noise])\n" + _MSA)]},
+    {"id": "c09-b-memo-on-function-attribute-complete-key", "file": _A + "ddpg.py", "edits": [
+        (_MSA, "    k_ = (action_space.low.tobytes(), action_space.high.tobytes(), exploration_noise)\n    if k_ not in make_sample_actions.jitted_:\n        make_sample_actions.jitted_[k_] = " + _MSA_BUILD + "\n    return make_sample_actions.jitted_[k_]\n\n\nmake_sample_actions.jitted_ = {}\n")]},
+    {"id": "c09-b-table-filled-at-import", "file": _A + "ddpg.py", "edits": [(_MSA_DEF, "_SCALES_ = {}\n\n\ndef _declare_scale_(name, value):\n    _SCALES_[name] = value\n\n\n_declare_scale_(\"half\", 0.5)\n\n\n" + _MSA_DEF),
+        ("    action_scale = 0.5 * (action_space.high - action_space.low)\n    return nnx.jit(", "    action_scale = _SCALES_[\"half\"] * (action_space.high - action_space.low)\n    return nnx.jit(")]},
+    {"id": "c09-b-call-count-logged", "file": "rl_blox/blox/mapb.py", "edits": [("class DUCB:\n", "_MADE_ = 0\n\n\nclass DUCB:\n"),
+        ("        self.n_arms = n_arms\n", "        global _MADE_\n        _MADE_ += 1\n        if verbose:\n            print(f\"bandit #{_MADE_}\")\n        self.n_arms = n_arms\n")]},
+    {"id": "c09-b-instance-level-memo", "file": "rl_blox/blox/mapb.py", "edits": [(_DUCB_INIT, "    _pad_memo_ = {}\n\n" + _DUCB_INIT + "        self._pad_memo_ = {}\n"),
+        (_DUCB_PAD, _DUCB_PAD_MEMO.replace("arm_idx not in", "(arm_idx, float(self.total_frequency), float(self.discounted_frequencies[arm_idx])) not in").replace("_[arm_idx]", "_[(arm_idx, float(self.total_frequency), float(self.discounted_frequencies[arm_idx]))]"))]},
+    {"id": "c09-b-overwritten-before-read", "file": _A + "ddpg.py", "edits": [(_MSA_DEF, "_LAST_ = {}\n\n\n" + _MSA_DEF),
+        (_MSA, "    _LAST_.clear()\n    _LAST_[\"sampler\"] = " + _MSA_BUILD + "\n    return _LAST_[\"sampler\"]\n")]},
 ]
